@@ -146,6 +146,13 @@ end VArr
 def VSlice.toArr (s : VSlice) : VArr :=
   { addr := s.addr, nelem := s.size, bmBase := s.bmBase, ty := ⟨1, 1⟩ }
 
+/-- `ByteValued::from_slice` / `from_mut_slice` on `len` bytes at host address `addr`:
+    `data.len() != size_of::<Self>()` ⇒ `None`; otherwise `align_to::<Self>()` must yield exactly
+    `([], [mid], [])`, which for a slice of exactly `size_of::<Self>()` bytes happens iff the address
+    is aligned (contract of `slice::align_to`).  For a zero-sized `Self`, `align_to` returns the whole
+    input as the prefix and an empty middle, so the answer is always `None`. -/
+def fromSlice (addr len : Nat) (t : Ty) : Bool := len == t.size && t.size != 0 && addr % t.align == 0
+
 /-- the slice a region hands out for its whole extent; `MmapRegion::get_slice`
     is `compute_end_offset` + `addr.add(offset)` + `bitmap.slice_at(offset)`, i.e.
     `subslice` of this root view. -/
